@@ -18,6 +18,16 @@ CHECKS = {
         note="Trusts Python's unicodedata (UCD 14.0) and XML parser; token text is read from set_mathml's return value.",
         technique="exhaustive runtime monitoring with UCD oracle + ASan re-run",
         design="6/C18"),
+    "C04": dict(
+        level="exploration",
+        text="Runtime monitor over get_spoken_text of the real library: random textbook-grammar expressions carry a distinct decimal literal at every operand "
+             "position (unambiguous histories), generated per session with that session's decimal mark, for every shipped language x style x verbosity and "
+             "random ClearSpeak_* preference subsets; the oracle counts each literal in the speech. Violations are delta-debugged to a minimal witness and "
+             "classified against known_findings.json (five genuine rule/code defects are open there). Sampling, not proof: reach is the generator's grammar "
+             "(33 construct kinds, depth<=4) and the measured rule coverage reported in the evidence.",
+        note="Operands lost inside set_mathml are C01's; set_mathml errors are C08's. Trusts the driver's boundary recording and Python's re module.",
+        technique="runtime monitoring with unique planted literals + delta debugging",
+        design="6/C04"),
 }
 
 NOT_YET = "check not built yet in this phase of the work (build in progress); nothing is claimed for it"
